@@ -149,6 +149,71 @@ fn run_history(start: &str, ops: &mut dyn FnMut(&RealState, usize) -> Option<Str
     batch.push(case);
 }
 
+/// Histories that START from a tree built by another public construction — a random generator (with branch lengths), UPGMA
+/// (integer, decimal and tied matrices), a copy of the object — and continue with edits.  The lengths are arbitrary floats, so
+/// the model is not consulted: the oracle is the invariant on the raw arena (both records of every branch bit for bit, links,
+/// depths) and the agreement of the public accessors with it, after the construction and after every step.
+fn constructions(rng: &mut Rng, count: usize, rep: &mut Report) {
+    for k in 0..count {
+        let start = match k % 4 {
+            0 | 1 => format!("real.gen\t{}\t{}\t{}\t{}\t{}", *rng.pick(&["ete3", "yule", "cat"]), rng.range(2, 40), if k % 8 < 6 { 1 } else { 0 },
+                             *rng.pick(&["uniform", "exponential", "gamma"]), rng.next() % 1_000_000),
+            _ => {
+                let n = rng.range(2, 12);
+                let hi = *rng.pick(&[3usize, 7, 9, 40]);
+                let cells: Vec<String> = (0..n * (n - 1) / 2).map(|_| rng.range(1, hi).to_string()).collect();
+                let taxa: Vec<String> = (0..n).map(|i| hex(&format!("u{i}"))).collect();
+                format!("up.run\t{}\t{}{}", taxa.join(","), cells.join(" "), if k % 4 == 2 { "\tdiv10" } else { "" })
+            }
+        };
+        let mut st = RealState::new();
+        let mut script = start.clone();
+        let (a, _) = st.exec(&start);
+        rep.count(&format!("construction:{}", start.split('\t').next().unwrap()));
+        if class_of(&a) != "ok" {
+            rep.oracle("construction", "refused", &script, &a);
+            continue;
+        }
+        rep.case(&script, true);
+        let nsteps = rng.range(0, 12);
+        let mut step = 0;
+        loop {
+            let slots = slots_of(&st.tree);
+            let opname = script.lines().last().unwrap_or("").split('\t').next().unwrap_or("").to_string();
+            if let Err(e) = check_inv(&slots, step == 0) {
+                rep.oracle("inv", &format!("{}:{}", if step == 0 { "construction" } else { opname.as_str() }, inv_sig(&e)), &script, &e);
+                break;
+            }
+            if let Err(e) = accessors_agree(&st.tree, &slots) {
+                rep.oracle("accessors", &format!("{}:{}", if step == 0 { "construction" } else { opname.as_str() }, inv_sig(&e)), &script, &e);
+                break;
+            }
+            if step >= nsteps {
+                break;
+            }
+            step += 1;
+            // edits whose arguments do not need exact lengths; a copy of the object now and then
+            let op = match rng.below(10) {
+                0 => "real.clone".to_string(),
+                1 | 2 => format!("ar.prune\t{}", pick_id(rng, &st)),
+                3 | 4 => "ar.compress".to_string(),
+                5 => format!("ar.rescale\t{}", *rng.pick(&[2i64, 3, -1])),
+                6 => "ar.ladderize".to_string(),
+                7 => format!("real.resolve\t{}", rng.next() % 1_000_000),
+                8 => format!("ar.add_copy\t{}\t{}\t-", pick_id(rng, &st), pick_id(rng, &st)),
+                _ => random_op(rng, &st),
+            };
+            script.push('\n');
+            script.push_str(&op);
+            let (a, _) = st.exec(&op);
+            if class_of(&a) == "panic" {
+                rep.oracle("no-panic", &format!("{}:panic", op.split('\t').next().unwrap()), &script, &a);
+                break;
+            }
+        }
+    }
+}
+
 pub fn run(cfg: &Cfg, rep: &mut Report) {
     let mut rng = Rng::new(cfg.seed);
     let mut batch = Batch::new("c03.history");
@@ -175,6 +240,7 @@ pub fn run(cfg: &Cfg, rep: &mut Report) {
     }
 
     batch.flush(&cfg.driver, rep);
+    constructions(&mut rng, if thorough { 6000 } else { 600 }, rep);
 
     // --- exhaustive histories and random walks, as independent jobs over all cores ---
     enum Job {
